@@ -45,3 +45,9 @@ Definition acc_match (a : acc) (s : target * Z * aexp) : Prop :=
 
 Definition acc_spec (f : string) (l : list acc) (spec : list (target * Z * aexp)) : Prop :=
   Forall2 acc_match (accs_of f l) spec.
+
+(* weaker forms, for functions where only some statements matter for the inventory *)
+Definition acc_has (f : string) (l : list acc) (s : target * Z * aexp) : Prop :=
+  Exists (fun a => acc_match a s) (accs_of f l).
+Definition acc_count (f : string) (l : list acc) (t : target) : nat :=
+  length (filter (fun a => target_eqb (a_target a) t) (accs_of f l)).
